@@ -16,8 +16,8 @@ Definition accepted (m : N) (term : option N) (p : bytes) : N :=
   | Some _ => mm
   end.
 
-Lemma received_cons p peer c f m t fl :
-  wt_received (mk_wtr (p :: peer) c f m t fl) = concat (rev peer) ++ p.
+Lemma received_cons p peer c f m t fl st :
+  wt_received (mk_wtr (p :: peer) c f m t fl st) = concat (rev peer) ++ p.
 Proof. unfold wt_received. cbn [wt_peer]. rewrite frev_rev. cbn [rev]. rewrite concat_app. cbn. now rewrite app_nil_r. Qed.
 Lemma received_rev w : wt_received w = concat (rev (wt_peer w)).
 Proof. unfold wt_received. now rewrite frev_rev. Qed.
@@ -26,7 +26,7 @@ Proof. unfold wt_received. now rewrite frev_rev. Qed.
 Lemma wt_write_ok p w : wt_failed w = false -> wt_failat w <> Some (wt_calls w) ->
   exists w', wt_write p w = (lenN p, None, w') /\ wt_failed w' = false /\
              wt_received w' = wt_received w ++ p /\ wt_calls w' = N.succ (wt_calls w) /\
-             wt_failat w' = wt_failat w /\ wt_m w' = wt_m w /\ wt_term w' = wt_term w.
+             wt_failat w' = wt_failat w /\ wt_m w' = wt_m w /\ wt_term w' = wt_term w /\ wt_sticky w' = wt_sticky w.
 Proof.
   intros Hf Hi. unfold wt_write. rewrite Hf.
   destruct (wt_failat w) as [i|] eqn:Hfa.
@@ -36,9 +36,9 @@ Proof.
 Qed.
 
 Lemma wt_write_hit p w : wt_failed w = false -> wt_failat w = Some (wt_calls w) ->
-  exists w', wt_write p w = (accepted (wt_m w) (wt_term w) p, wt_term w, w') /\ wt_failed w' = true /\
+  exists w', wt_write p w = (accepted (wt_m w) (wt_term w) p, wt_term w, w') /\ wt_failed w' = wt_sticky w /\
              wt_received w' = wt_received w ++ firstn (N.to_nat (accepted (wt_m w) (wt_term w) p)) p /\
-             wt_term w' = wt_term w.
+             wt_term w' = wt_term w /\ wt_sticky w' = wt_sticky w.
 Proof.
   intros Hf Hi. unfold wt_write. rewrite Hf, Hi, N.eqb_refl.
   fold (accepted (wt_m w) (wt_term w) p).
@@ -130,22 +130,22 @@ Lemma copy_bytes_spec p w j : healthy w j ->
   match p, j with
   | [], _ => copy_bytes p w = (None, w)
   | _, Some 0 =>
-      exists w', copy_bytes p w = (Some (wt_err w), w') /\ wt_failed w' = true /\
+      exists w', copy_bytes p w = (Some (wt_err w), w') /\ wt_failed w' = wt_sticky w /\
         wt_received w' = wt_received w ++ firstn (N.to_nat (accepted (wt_m w) (wt_term w) p)) p
   | _, _ =>
       exists w', copy_bytes p w = (None, w') /\ healthy w' (jpred j) /\
-        wt_received w' = wt_received w ++ p /\ wt_m w' = wt_m w /\ wt_term w' = wt_term w
+        wt_received w' = wt_received w ++ p /\ wt_m w' = wt_m w /\ wt_term w' = wt_term w /\ wt_sticky w' = wt_sticky w
   end.
 Proof.
   intros Hh. destruct p as [|x p]; [reflexivity|].
   pose proof (healthy_step w j Hh) as Hs. destruct Hh as [Hf Hj].
   assert (Hok : j <> Some 0 -> exists w', copy_bytes (x :: p) w = (None, w') /\ healthy w' (jpred j) /\
-        wt_received w' = wt_received w ++ x :: p /\ wt_m w' = wt_m w /\ wt_term w' = wt_term w).
+        wt_received w' = wt_received w ++ x :: p /\ wt_m w' = wt_m w /\ wt_term w' = wt_term w /\ wt_sticky w' = wt_sticky w).
   { intros Hj0.
     assert (Hne : wt_failat w <> Some (wt_calls w)) by (destruct j as [[|q]|]; [congruence|exact Hs|exact Hs]).
-    destruct (wt_write_ok (x :: p) w Hf Hne) as (w' & Hw & Hf' & Hr & Hc & Ha & Hm & Ht).
+    destruct (wt_write_ok (x :: p) w Hf Hne) as (w' & Hw & Hf' & Hr & Hc & Ha & Hm & Ht & Hst).
     exists w'. unfold copy_bytes. rewrite Hw, N.eqb_refl. split; [reflexivity|].
-    split; [apply (healthy_next w w' j (conj Hf Hj) Hj0 Hf' Hc Ha)|auto]. }
+    split; [apply (healthy_next w w' j (conj Hf Hj) Hj0 Hf' Hc Ha)|repeat split; auto]. }
   destruct j as [[|q]|]; [|apply Hok; discriminate|apply Hok; discriminate].
   destruct (wt_write_hit (x :: p) w Hf Hs) as (w' & Hw & Hf' & Hr & Ht).
   exists w'. unfold copy_bytes. rewrite Hw. unfold wt_err. destruct (wt_term w) as [e|] eqn:Hterm.
@@ -164,20 +164,20 @@ Lemma copy_all_spec ps : forall w j, healthy w j ->
   match j with
   | Some j' =>
       if j' <? c then
-        exists w', copy_all ps w = (Some (wt_err w), w') /\ wt_failed w' = true /\
+        exists w', copy_all ps w = (Some (wt_err w), w') /\ wt_failed w' = wt_sticky w /\
           wt_received w' = wt_received w ++ received_at (wt_m w) (wt_term w) (filter nonempty ps) j'
       else
         exists w', copy_all ps w = (None, w') /\ healthy w' (Some (j' - c)) /\
-          wt_received w' = wt_received w ++ concat ps /\ wt_m w' = wt_m w /\ wt_term w' = wt_term w
+          wt_received w' = wt_received w ++ concat ps /\ wt_m w' = wt_m w /\ wt_term w' = wt_term w /\ wt_sticky w' = wt_sticky w
   | None =>
       exists w', copy_all ps w = (None, w') /\ healthy w' None /\
-        wt_received w' = wt_received w ++ concat ps /\ wt_m w' = wt_m w /\ wt_term w' = wt_term w
+        wt_received w' = wt_received w ++ concat ps /\ wt_m w' = wt_m w /\ wt_term w' = wt_term w /\ wt_sticky w' = wt_sticky w
   end.
 Proof.
   induction ps as [|p ps IH]; intros w j Hh; cbn [copy_all filter length concat].
   - destruct j as [j'|].
-    + cbn. destruct (N.ltb_spec j' 0) as [H|_]; [lia|]. exists w. rewrite N.sub_0_r, app_nil_r. auto.
-    + exists w. rewrite app_nil_r. auto.
+    + cbn. destruct (N.ltb_spec j' 0) as [H|_]; [lia|]. exists w. rewrite N.sub_0_r, app_nil_r. auto 10.
+    + exists w. rewrite app_nil_r. auto 10.
   - pose proof (copy_bytes_spec p w j Hh) as Hc. destruct p as [|x p].
     + (* empty piece: no call *)
       rewrite Hc. cbn [nonempty app]. apply IH. exact Hh.
@@ -186,7 +186,7 @@ Proof.
         destruct (N.ltb_spec 0 (N.pos (Pos.of_succ_nat (length (filter nonempty ps))))) as [_|H]; [|lia].
         exists w'. split; [reflexivity|]. split; [exact Hf'|].
         unfold received_at. cbn [N.to_nat firstn concat nth app]. exact Hr.
-      * destruct Hc as (w' & -> & Hh' & Hr & Hm & Ht). cbn [jpred] in Hh'.
+      * destruct Hc as (w' & -> & Hh' & Hr & Hm & Ht & Hst). cbn [jpred] in Hh'.
         specialize (IH w' _ Hh'). cbn beta iota zeta in IH.
         set (c := N.of_nat (length (filter nonempty ps))) in *.
         replace (N.of_nat (Datatypes.S (length (filter nonempty ps)))) with (N.succ c) by lia.
@@ -194,20 +194,20 @@ Proof.
         -- destruct (N.ltb_spec (N.pos q) (N.succ c)) as [_|H]; [|lia].
            destruct IH as (w'' & -> & Hf'' & Hr''). exists w''.
            assert (wt_err w' = wt_err w) as -> by (unfold wt_err; now rewrite Ht).
-           split; [reflexivity|]. split; [exact Hf''|].
+           split; [reflexivity|]. split; [congruence|].
            rewrite Hr'', Hr, Hm, Ht, <- app_assoc. f_equal.
            unfold received_at.
            replace (N.to_nat (N.pos q)) with (Datatypes.S (N.to_nat (N.pred (N.pos q)))) by lia.
            cbn [firstn concat nth]. now rewrite <- app_assoc.
         -- destruct (N.ltb_spec (N.pos q) (N.succ c)) as [H|_]; [lia|].
-           destruct IH as (w'' & -> & Hh'' & Hr'' & Hm'' & Ht''). exists w''.
+           destruct IH as (w'' & -> & Hh'' & Hr'' & Hm'' & Ht'' & Hst''). exists w''.
            split; [reflexivity|].
            replace (N.pos q - N.succ c) with (N.pred (N.pos q) - c) by lia.
-           split; [exact Hh''|]. rewrite Hr'', Hr, <- app_assoc. split; [reflexivity|]. split; congruence.
-      * destruct Hc as (w' & -> & Hh' & Hr & Hm & Ht). cbn [jpred] in Hh'.
-        destruct (IH w' None Hh') as (w'' & -> & Hh'' & Hr'' & Hm'' & Ht''). exists w''.
+           split; [exact Hh''|]. rewrite Hr'', Hr, <- app_assoc. split; [reflexivity|]. repeat split; congruence.
+      * destruct Hc as (w' & -> & Hh' & Hr & Hm & Ht & Hst). cbn [jpred] in Hh'.
+        destruct (IH w' None Hh') as (w'' & -> & Hh'' & Hr'' & Hm'' & Ht'' & Hst''). exists w''.
         split; [reflexivity|]. split; [exact Hh''|]. rewrite Hr'', Hr, <- app_assoc.
-        split; [reflexivity|]. split; congruence.
+        split; [reflexivity|]. repeat split; congruence.
 Qed.
 
 Lemma firstn_app_len {A} (a b : list A) n : (length a <= n)%nat -> firstn n (a ++ b) = a ++ firstn (n - length a) b.
@@ -236,7 +236,7 @@ Theorem run_wops_spec ops : forall w j n, healthy w j ->
   match j with
   | Some j' =>
       if j' <? N.of_nat (length calls) then
-        exists w', run_wops ops w n = (n + ops_before ops j', Some (wt_err w), w') /\ wt_failed w' = true /\
+        exists w', run_wops ops w n = (n + ops_before ops j', Some (wt_err w), w') /\ wt_failed w' = wt_sticky w /\
           wt_received w' = wt_received w ++ received_at (wt_m w) (wt_term w) calls j'
       else
         exists w', run_wops ops w n = (n + N.of_nat (length ops), None, w') /\
@@ -261,14 +261,14 @@ Proof.
         destruct (N.leb_spec c j') as [H|_]; [lia|].
         exists w'. rewrite N.add_0_r. split; [reflexivity|]. split; [exact Hf'|].
         now rewrite received_at_app_l by (fold c; exact Hlt).
-      * destruct Hc as (w' & -> & Hh' & Hr & Hm & Ht).
+      * destruct Hc as (w' & -> & Hh' & Hr & Hm & Ht & Hst).
         destruct (N.leb_spec c j') as [_|H]; [|lia].
         specialize (IH w' (Some (j' - c)) (N.succ n) Hh'). cbn beta iota zeta in IH.
         destruct (N.ltb_spec (j' - c) (N.of_nat (length (calls_of ops)))) as [Hlt2|Hge2].
         -- destruct (N.ltb_spec j' (c + N.of_nat (length (calls_of ops)))) as [_|H]; [|lia].
            destruct IH as (w'' & -> & Hf'' & Hr''). exists w''.
            assert (wt_err w' = wt_err w) as -> by (unfold wt_err; now rewrite Ht).
-           split; [f_equal; f_equal; lia|]. split; [exact Hf''|].
+           split; [f_equal; f_equal; lia|]. split; [congruence|].
            rewrite Hr'', Hr, Hm, Ht, <- app_assoc. f_equal.
            rewrite received_at_app by (fold c; exact Hge). fold c.
            now rewrite concat_filter_nonempty.
@@ -277,16 +277,16 @@ Proof.
            split; [f_equal; f_equal; lia|].
            replace (j' - (c + N.of_nat (length (calls_of ops)))) with (j' - c - N.of_nat (length (calls_of ops))) by lia.
            split; [exact Hh''|]. rewrite Hr'', Hr, concat_app, <- app_assoc. reflexivity.
-    + destruct Hc as (w' & -> & Hh' & Hr & Hm & Ht).
+    + destruct Hc as (w' & -> & Hh' & Hr & Hm & Ht & Hst).
       destruct (IH w' None (N.succ n) Hh') as (w'' & -> & Hh'' & Hr''). exists w''.
       split; [f_equal; f_equal; lia|]. split; [exact Hh''|].
       rewrite Hr'', Hr, concat_app, <- app_assoc. reflexivity.
 Qed.
 
 (* a fresh transport with the fault at call i *)
-Lemma healthy_new i m term : healthy (wtr_new (Some i) m term) (Some i).
+Lemma healthy_new st i m term : healthy (wtr_new_s st (Some i) m term) (Some i).
 Proof. split; reflexivity. Qed.
-Lemma healthy_new_none m term : healthy (wtr_new None m term) None.
+Lemma healthy_new_none st m term : healthy (wtr_new_s st None m term) None.
 Proof. split; [reflexivity|]. intros k. discriminate. Qed.
 
 (* what arrived is a prefix of what a fault-free run sends *)
@@ -349,8 +349,8 @@ Qed.
 Lemma flv_wire hv ha tags : concat (concat (flv_wops hv ha tags)) = MF.mux hv ha tags.
 Proof. rewrite <- concat_calls_of, flv_calls. reflexivity. Qed.
 
-Theorem flv_write_fault hv ha tags i m term :
-  let w0 := wtr_new (Some i) m term in
+Theorem flv_write_fault st hv ha tags i m term :
+  let w0 := wtr_new_s st (Some i) m term in
   let calls := MF.mux_writes hv ha tags in
   if i <? N.of_nat (length calls) then
     exists w, flv_write_session hv ha tags w0 = (ops_before (flv_wops hv ha tags) i, Some (wt_err w0), w) /\
@@ -361,24 +361,24 @@ Theorem flv_write_fault hv ha tags i m term :
       wt_received w = MF.mux hv ha tags.
 Proof.
   intros w0 calls. rewrite flv_write_session_wops.
-  pose proof (run_wops_spec (flv_wops hv ha tags) w0 (Some i) 0 (healthy_new i m term)) as R.
+  pose proof (run_wops_spec (flv_wops hv ha tags) w0 (Some i) 0 (healthy_new st i m term)) as R.
   cbn zeta in R. rewrite flv_calls in R. fold calls in R.
   destruct (N.ltb_spec i (N.of_nat (length calls))) as [Hlt|Hge].
   - destruct R as (w & -> & _ & Hr). exists w. rewrite N.add_0_l. split; [reflexivity|].
-    cbn [wt_received wt_peer w0 wtr_new] in Hr. change (wt_received w0) with (@nil N) in Hr.
-    cbn [app wt_m wt_term w0 wtr_new] in Hr. split; [exact Hr|].
+    cbn [wt_received wt_peer w0 wtr_new_s] in Hr. change (wt_received w0) with (@nil N) in Hr.
+    cbn [app wt_m wt_term w0 wtr_new_s] in Hr. split; [exact Hr|].
     rewrite Hr. unfold MF.mux. fold calls. apply received_at_prefix. exact Hlt.
   - destruct R as (w & -> & _ & Hr). exists w.
     unfold flv_wops. cbn [length]. rewrite map_length, N.add_0_l. split; [reflexivity|].
     change (wt_received w0) with (@nil N) in Hr. cbn [app] in Hr. rewrite Hr. apply flv_wire.
 Qed.
 
-Theorem flv_write_no_fault hv ha tags m term :
-  exists w, flv_write_session hv ha tags (wtr_new None m term) = (N.of_nat (1 + length tags), None, w) /\
+Theorem flv_write_no_fault st hv ha tags m term :
+  exists w, flv_write_session hv ha tags (wtr_new_s st None m term) = (N.of_nat (1 + length tags), None, w) /\
     wt_received w = MF.mux hv ha tags.
 Proof.
   rewrite flv_write_session_wops.
-  destruct (run_wops_spec (flv_wops hv ha tags) _ None 0 (healthy_new_none m term)) as (w & -> & _ & Hr).
+  destruct (run_wops_spec (flv_wops hv ha tags) _ None 0 (healthy_new_none st m term)) as (w & -> & _ & Hr).
   exists w. unfold flv_wops. cbn [length]. rewrite map_length, N.add_0_l. split; [reflexivity|].
-  change (wt_received (wtr_new None m term)) with (@nil N) in Hr. cbn [app] in Hr. rewrite Hr. apply flv_wire.
+  change (wt_received (wtr_new_s st None m term)) with (@nil N) in Hr. cbn [app] in Hr. rewrite Hr. apply flv_wire.
 Qed.
